@@ -8,7 +8,6 @@ Lemma tie_temporary_codes : forall c, is_temporary c = existsb (N.eqb c) G.tempo
 Proof. intros c. unfold is_temporary. cbn. rewrite orb_false_r. reflexivity. Qed.
 
 Lemma tie_literals :
-  G.sessionless_literals = (rm_version rmcp_out, 1) /\ G.session_literals = (rm_version rmcp_out, 1) /\
   (forall o lun, m_sequence (request_message o lun) = 1) /\
   (forall o lun, m_remote_addr (request_message o lun) = 2 * G.SlaveAddressBMC) /\
   (forall o lun, m_local_addr (request_message o lun) = 2 * G.SoftwareIDRemoteConsole1 + 1).
